@@ -13,7 +13,7 @@ def specs(rng):
 
 
 # level names that coincide with names the broker reserves for itself: ordinary levels on a client's channel
-ODD_WORDS = [b"presence", b"a", b"emitter", b"link", b"stats2", b"keygen"]
+ODD_WORDS = [b"presence", b"a", b"history", b"link", b"stats2", b"keygen"]   # not "emitter": the harness reads topics under emitter/ as the broker's JSON replies
 
 
 def chan(rng, depth=None, wild=False, words=None):
